@@ -32,6 +32,17 @@ D: * OdtContent.iterate_units (real method, objects built in memory) against the
    * every result scanned for address-like tokens ("at 0x...", "<... object at", IndirectObject(n, g, id));
    * generated PDFs also vary /Filter (name, array, indirect reference); PdfImage.color_space is compared with the Coq
      model of the stripping pattern applied to str() of the raw pypdf value (correspondence).
+   * environment: common.env_sweep (DEBUG logging, worker thread, TZ New York / Tokyo, other cwd) over every well-formed
+     generated document and up to 3 small fixtures per extension;
+   * generated mbox (Date header present / absent / unparsable / named zone), eml with text attachments, ZIP / TAR /
+     TAR.GZ with 2..14 members of decreasing cost, plain-text files at the size boundaries 2^16, 2^20, 2^22 and at every
+     size-like integer constant of the extractor modules +-1 (ast), one mail with such an attachment;
+   * worker: a closed input buffer counts as modified; the first worker extracts a second time from the SAME buffer;
+     observer sequences call EmailContent.iterate_supported_attachments; a to_json() that starts raising is a change.
+   X nondeterminism sources now include local-time calls (astimezone without tzinfo=, localtime, mktime, fromtimestamp
+     without tz) and completion-order consumption (as_completed, imap_unordered, wait); pools are SOrderKept only if the
+     function uses none of them.  X input stream: owning wrappers (TextIOWrapper, BufferedReader ... not detach()ed) and
+     `with file_like:` count as non-read-only.
    X stringification sites (str()/repr()/format()/f-string/% of a non-primitive operand outside log / raise / lookup
      contexts): stripped / exception / reviewed / OBJECT (fails closed); the stripping pattern constants must equal the
      modelled pattern.  X reads of the process-global MIME database outside router.py are findings.
@@ -2587,13 +2598,13 @@ def run(ctx):
                                     {"input": rel, "bytes": input_bytes(rel), "path": path, "mime_database": kind})
         ctx.extra["inputs_per_worker"] = len(base)
         ctx.extra["hash_seeds"] = [s for s, _ in results]
+    mark("mime-workers+comparisons")
     strip_correspondence(ctx, gen_root)
     mark("strip-correspondence")
     environment_sweep(ctx, resources, gen_root, generated)
     mark("env-sweep")
     td_obj.cleanup()
 
-    mark("mime-workers")
     # ---- D4: stream position/content discipline of the two modelled helpers (tie of Part C)
     stream_oracle(ctx)
     mark("stream")
